@@ -106,6 +106,7 @@ package eval
 //@ func (*ValidationErrors).Merge
 //@   params verr err
 //@   ensures never.shrinks: len(verr.Errors) >= old(len(verr.Errors))
+//@   ensures own.lists: (verr.Errors.arr == old(verr.Errors.arr) || fresh(verr.Errors)) && (verr.Expressions.arr == old(verr.Expressions.arr) || fresh(verr.Expressions))
 //@   modifies verr.Errors, verr.Expressions, elems(verr.Errors), elems(verr.Expressions)
 
 // validateSet: every validation failure of the set is recorded ("all errors of a phase are returned
